@@ -254,7 +254,7 @@ func findTypeLiteralViolation(
 	ctx *testOnlyContext,
 	node *ast.CompositeLit,
 ) *TestOnlyViolation {
-	typeInfo := util.ExtractTypeInfo(ctx.pass.TypesInfo.TypeOf(node))
+	typeInfo := findTestOnlyType(ctx, ctx.pass.TypesInfo.TypeOf(node))
 	if typeInfo == nil {
 		return nil
 	}
@@ -284,7 +284,7 @@ func findTypeUsageViolation(
 		return nil
 	}
 
-	typeInfo := util.ExtractTypeInfo(ctx.pass.TypesInfo.TypeOf(typeExpr))
+	typeInfo := findTestOnlyType(ctx, ctx.pass.TypesInfo.TypeOf(typeExpr))
 	if typeInfo == nil {
 		return nil
 	}
@@ -301,6 +301,52 @@ func findTypeUsageViolation(
 		}
 	}
 	return nil
+}
+
+// findTestOnlyType returns the first @testonly type used by t: t itself, or a type it is
+// composed of ([]T, [N]T, *T, map[K]T, chan T, func(T) T). Defined types are not looked into:
+// their own declaration is checked where it stands. Returns the plain type info of t when
+// no @testonly type is found (nil if t is not a named type).
+func findTestOnlyType(ctx *testOnlyContext, t types.Type) *util.TypeInfo {
+	var visit func(t types.Type, depth int) *util.TypeInfo
+	visit = func(t types.Type, depth int) *util.TypeInfo {
+		if t == nil || depth > 16 {
+			return nil
+		}
+		switch u := types.Unalias(t).(type) {
+		case *types.Named:
+			if info := util.ExtractTypeInfo(u); info != nil && ctx.testOnlyTypes.Contains(info.PkgPath, info.TypeName) {
+				return info
+			}
+		case *types.Pointer:
+			return visit(u.Elem(), depth+1)
+		case *types.Slice:
+			return visit(u.Elem(), depth+1)
+		case *types.Array:
+			return visit(u.Elem(), depth+1)
+		case *types.Chan:
+			return visit(u.Elem(), depth+1)
+		case *types.Map:
+			if info := visit(u.Key(), depth+1); info != nil {
+				return info
+			}
+			return visit(u.Elem(), depth+1)
+		case *types.Signature:
+			for _, tuple := range []*types.Tuple{u.Params(), u.Results()} {
+				for i := 0; i < tuple.Len(); i++ {
+					if info := visit(tuple.At(i).Type(), depth+1); info != nil {
+						return info
+					}
+				}
+			}
+		}
+		return nil
+	}
+
+	if info := visit(t, 0); info != nil {
+		return info
+	}
+	return util.ExtractTypeInfo(t)
 }
 
 // isTestFile checks if a file is a test file (ends with _test.go)
